@@ -786,6 +786,10 @@ func (n *ExtendsNode) Render(w io.Writer, ctx *RenderContext) error {
 	parentCtx.sandboxed = ctx.sandboxed // A sandbox covers the layouts a sandboxed template extends
 	parentCtx.parent = ctx.parent       // Variables visible to the child (e.g. an includer's) stay visible in its layout
 
+	// An extends tag inside a block body re-enters the layout that renders that
+	// block; keep counting block nesting so that this fails instead of recursing forever
+	parentCtx.blockDepth = ctx.blockDepth
+
 	// Pass along the parent template as lastLoadedTemplate for relative path resolution
 	parentCtx.lastLoadedTemplate = parentTemplate
 
